@@ -1152,6 +1152,18 @@ def simplify_unit(old_unit_str, msginfo=''):
     if new_str:
         reg1 = re.compile(r'\bas_\b')
         new_str = reg1.sub('as', new_str)
+
+        # The name is assembled from the parts of the expression. Keep the original string in the
+        # rare cases where that name does not denote the same unit (e.g. '2*m/m' gives '2',
+        # 'm/(1/degC)' gives 'm*degC/1', '(m**4)**0.5' gives 'm**2.0').
+        try:
+            check = _find_unit(new_str)
+        except Exception:
+            check = None
+        if (check is None or check._powers != found_unit._powers or
+                check._offset != found_unit._offset or
+                abs(check._factor - found_unit._factor) > 1e-12 * abs(found_unit._factor)):
+            return old_unit_str
     return new_str
 
 
